@@ -44,6 +44,16 @@ func main() {
 		os.Exit(cmdC10Witness())
 	case "filefault":
 		os.Exit(cmdFileFault(os.Args[2:]))
+	case "needsrace":
+		// exit 0 if the property has a unit that wants the -race build
+		if len(os.Args) > 2 && registry[os.Args[2]] != nil {
+			for _, u := range registry[os.Args[2]].Units {
+				if u.Race {
+					os.Exit(0)
+				}
+			}
+		}
+		os.Exit(1)
 	case "list":
 		ids := sortedKeys(registry)
 		for _, id := range ids {
